@@ -93,6 +93,15 @@ func jsonNormValue(dec *json.Decoder, ordered bool) (string, bool) {
 // jnorm: the JSON view of a harness value (lists are arrays, keyed values are objects with string keys)
 func (v pv) jnorm(ordered bool) string {
 	switch v.K {
+	case 'K':
+		if v.isList() { // keys 0..n-1 in order: a JSON array, as in PHP
+			return pv{K: 'A', Items: v.Items}.jnorm(ordered)
+		}
+		keys := make([]string, len(v.Items))
+		for i := range v.Items {
+			keys[i] = v.slotKey(i)
+		}
+		return pv{K: 'O', Items: v.Items, Keys: keys}.jnorm(ordered)
 	case 'A':
 		p := make([]string, len(v.Items))
 		for i, x := range v.Items {
@@ -117,13 +126,11 @@ func (v pv) jnorm(ordered bool) string {
 
 func jsonSafe(v pv) bool {
 	switch v.K {
-	case 'I':
-		return v.I >= -(1<<53) && v.I <= 1<<53
 	case 'S':
 		return utf8.ValidString(v.S)
 	case 'D':
 		return false
-	case 'A', 'O':
+	case 'A', 'O', 'K':
 		for i, x := range v.Items {
 			if !jsonSafe(x) {
 				return false
@@ -131,13 +138,16 @@ func jsonSafe(v pv) bool {
 			if v.K == 'O' && (!utf8.ValidString(v.Keys[i]) || v.Keys[i] == "") { // "" key: known finding json_decode:empty-key-dropped
 				return false
 			}
+			if v.K == 'K' && !utf8.ValidString(v.Keys[i]) {
+				return false
+			}
 		}
 	}
 	return true
 }
 
-// genJSONValue: like genPV, restricted to what JSON can carry exactly through
-// a float64 (|int| ≤ 2^53, valid UTF-8).
+// genJSONValue: like genPV, restricted to what the JSON layer is checked on exactly
+// (any int64, valid UTF-8, no float, no empty object key).
 func (r *runner) genJSONValue(depth int) pv {
 	for {
 		v := r.genPV(depth)
@@ -176,19 +186,28 @@ func (r *runner) oneJSON(v pv) {
 			got = fromData(d.V).String()
 		}
 		r.viol("json:roundtrip-assoc", fmt.Sprintf("json_decode(json_encode(%s), true) = %s", clip(vs), clip(got)), cas)
-	}
-	// decode without assoc: objects at the top level only (anything else is the known finding)
-	if v.K == 'O' {
-		d := r.e.call("json_decode", str(out))
-		if d.Kind == "panic" || d.Kind == "throw" {
-			r.viol("json_decode:"+d.Kind, fmt.Sprintf("json_decode(%q) → %s", clip(out), d), cas)
-		} else if d.V == nil || fromData(d.V).jnorm(false) != v.jnorm(false) {
-			got := "?" + d.Kind
-			if d.V != nil {
-				got = fromData(d.V).String()
-			}
-			r.viol("json:roundtrip-object", fmt.Sprintf("json_decode(json_encode(%s)) = %s", clip(vs), clip(got)), cas)
+	} else {
+		// what json_decode(…, true) returns (objects are ArrayValues with named slots) encodes to the same
+		// PHP value: an object again, unless the (sorted) keys happen to be 0..n-1, which is a list
+		e2 := r.e.call("json_encode", d.V)
+		if ref2, ok := jsonNorm(e2.S, false); e2.Kind != "str" || !ok || ref2 != fromDataK(d.V).jnorm(false) {
+			r.viol("json:reencode-assoc", fmt.Sprintf("json_encode(json_decode(%q, true)) = %s %q", clip(out), e2.Kind, clip(e2.S)), cas)
 		}
+	}
+	// decode without assoc: objects, arrays and scalars at the top level
+	d = r.e.call("json_decode", str(out))
+	if d.Kind == "panic" || d.Kind == "throw" {
+		r.viol("json_decode:"+d.Kind, fmt.Sprintf("json_decode(%q) → %s", clip(out), d), cas)
+	} else if d.V == nil || fromData(d.V).jnorm(false) != v.jnorm(false) {
+		got := "?" + d.Kind
+		if d.V != nil {
+			got = fromData(d.V).String()
+		}
+		sig := "json:roundtrip-object"
+		if v.K != 'O' {
+			sig = "json:roundtrip-plain"
+		}
+		r.viol(sig, fmt.Sprintf("json_decode(json_encode(%s)) = %s", clip(vs), clip(got)), cas)
 	}
 	c.SampleSome(map[string]any{"value": clip(vs), "json": clip(out)}, 307)
 }
@@ -214,7 +233,7 @@ func (r *runner) oneJSONText(s string, how string) {
 		if !valid && d.Kind != "null" {
 			r.viol("json_decode:accepts-invalid", fmt.Sprintf("json_decode(%q, %v) = %s but the text is not JSON", clip(s), assoc, d.Kind), cas)
 		}
-		if valid && assoc {
+		if valid {
 			c.Hit("jsontext:valid")
 			if want, ok := jsonNormLossy(s); ok {
 				got := "?"
@@ -222,15 +241,15 @@ func (r *runner) oneJSONText(s string, how string) {
 					got = fromData(d.V).jnorm(false)
 				}
 				if got != want {
-					r.viol("json_decode:reference", fmt.Sprintf("json_decode(%q, true) = %s, encoding/json says %s", clip(s), clip(got), clip(want)), cas)
+					r.viol("json_decode:reference", fmt.Sprintf("json_decode(%q, %v) = %s, encoding/json says %s", clip(s), assoc, clip(got), clip(want)), cas)
 				}
 			}
 		}
 	}
 }
 
-// jsonNormLossy: reference value of a JSON text whose numbers are all integers of magnitude ≤ 2^53
-// (others are outside the exact range of the decoder and are judged by the known stream).
+// jsonNormLossy: reference value of a JSON text whose numbers are all integers in int64
+// written without fraction / exponent (floats are not judged here).
 func jsonNormLossy(s string) (string, bool) {
 	dec := json.NewDecoder(bytes.NewReader([]byte(s)))
 	dec.UseNumber()
@@ -251,7 +270,7 @@ func jsonNormLossy(s string) (string, bool) {
 			return pv{K: 'F'}
 		case json.Number:
 			n, err := t.Int64()
-			if err != nil || n > 1<<53 || n < -(1<<53) || strings.ContainsAny(t.String(), ".eE") || t.String() == "-0" {
+			if err != nil || strings.ContainsAny(t.String(), ".eE") || t.String() == "-0" {
 				ok = false
 			}
 			return pv{K: 'I', I: n}
@@ -314,10 +333,19 @@ func (r *runner) mutateJSON(s string) (string, string) {
 func (r *runner) jsonLayer() {
 	c := r.c
 	for _, i := range intPool {
-		if i >= -(1<<53) && i <= 1<<53 {
-			r.oneJSON(pv{K: 'I', I: i})
-			r.oneJSON(pv{K: 'A', Items: []pv{{K: 'I', I: i}}})
+		r.oneJSON(pv{K: 'I', I: i})
+		r.oneJSON(pv{K: 'A', Items: []pv{{K: 'I', I: i}}})
+		r.oneJSON(pv{K: 'O', Items: []pv{{K: 'I', I: i}}, Keys: []string{"n"}})
+	}
+	// keyed ArrayValues (slot names): objects unless the keys are 0..n-1 in order
+	for _, ks := range [][]string{{"x", "y"}, {"", "k"}, {"k", ""}, {"", "", "5"}, {"0", "1"}, {"1", "0"}, {"", "1"}, {"-3", "03", "+3"}, {"a\"b", "\\", "\n"}, {"3", "", ""}} {
+		v := pv{K: 'K', Items: []pv{}}
+		for i, k := range ks {
+			v.Keys = append(v.Keys, k)
+			v.Items = append(v.Items, pv{K: 'I', I: int64(i + 1)})
 		}
+		r.oneJSON(v)
+		r.oneJSON(pv{K: 'A', Items: []pv{v, {K: 'O', Items: []pv{v}, Keys: []string{"in"}}}})
 	}
 	for _, s := range strPool {
 		if utf8.ValidString(s) {
@@ -344,7 +372,7 @@ func (r *runner) jsonLayer() {
 			r.oneJSONText(string([]byte{byte(a), byte(b)}), "pairs")
 		}
 	}
-	for _, s := range []string{"", "null", "true", "false", "0", "-0", "1e2", "1.5", "[]", "{}", "[1,2]", "{\"a\":1}", "{\"a\":{\"b\":[1,{\"c\":null}]}}", "\"x\"", "\"\\u00e9\"", "\"\\ud83d\\ude00\"", "[1,]", "{\"a\":1,}", "{'a':1}", "[1 2]", "nul", "tru", "\"abc", "{\"a\":1}x", " [1] ", "\n{\"a\" : 1}\n", strings.Repeat("[", 100) + strings.Repeat("]", 100), strings.Repeat("[", 20000), "{\"a\":1,\"a\":2}"} {
+	for _, s := range []string{"", "null", "true", "false", "0", "-0", "1e2", "1.5", "[]", "{}", "[1,2]", "[9007199254740993]", "9223372036854775807", "-9223372036854775808", "[9223372036854775808]", "{\"a\":-9223372036854775809}", "123456789012345678901234567890", "[1e999]", "\v1", "1\f", "\u00a01", "{\"a\":1}", "{\"a\":{\"b\":[1,{\"c\":null}]}}", "\"x\"", "\"\\u00e9\"", "\"\\ud83d\\ude00\"", "[1,]", "{\"a\":1,}", "{'a':1}", "[1 2]", "nul", "tru", "\"abc", "{\"a\":1}x", " [1] ", "\n{\"a\" : 1}\n", strings.Repeat("[", 100) + strings.Repeat("]", 100), strings.Repeat("[", 20000), "{\"a\":1,\"a\":2}"} {
 		r.oneJSONText(s, "pool")
 	}
 	n := c.N(2000, 200000)
